@@ -134,3 +134,26 @@ def guard_digits_cure(case, viol):
     # the better-resolved twin either agrees with the exact count or owns up to a comparison near the tolerance (which the
     # few-digit count could not see: its truncation noise had pushed the two values apart)
     return not r.violations and not r.skipped and ('countq-far' in r.classes or 'countq-near-tolerance(not asserted)' in r.classes)
+
+
+def meek_prf_digits_exhausted(case, viol):
+    """F23 (crash form, C01): meek-prf over-elects and trips the post-count assertion on an electorate that exhausts its nine
+    statutory digits.  Identity: the reference count of the published procedure at the SAME nine digits fills the wrong number of
+    seats as well (droop follows the procedure) AND the reference at 21 digits fills exactly the seats; otherwise new."""
+    from . import model
+    from .ref import meek_prf
+    from .props.C11 import delete_withdrawn
+    c = case.get('case', case)
+    if c.get('rule') != 'meek-prf':
+        return False
+    wd = set(c.get('withdrawn') or [])
+    cd = delete_withdrawn(c) if wd else c
+    ballots = [(m, [rk[0] for rk in r]) for m, r in model.kept_ballots(cd)]
+    tie = cd.get('tie') or list(range(1, cd['ncand'] + 1))
+    want = min(cd['nseats'], cd['ncand'])
+    try:
+        lo = meek_prf.count(cd['ncand'], cd['nseats'], ballots, tie, P=9, OM=6)
+        hi = meek_prf.count(cd['ncand'], cd['nseats'], ballots, tie, P=21, OM=6)
+    except Exception:      # pylint: disable=broad-except
+        return False
+    return len(lo[-1][1]) != want and len(hi[-1][1]) == want
